@@ -44,6 +44,7 @@ ASSUMPTIONS = ["tag names are identifiers that do not collide with CoordinateMan
 EXHAUSTIVE = {"quick": False, "thorough": False}
 
 NAMES = ["a", "b", "c", "d", "e", "f"]
+NAMES_OTHER = ["_scan", "rest", "_b2", "x1", "Top", "world_1"]
 UNKNOWN = ["zz", "yy"]
 
 
@@ -59,7 +60,9 @@ def gen(rng, tier):
 
 def gen_script(rng, stream, base):
     ntags = rng.choice([1, 2, 2, 3, 3, 4, 5, 6])
-    names = NAMES[:ntags]
+    # one script in four uses other spellings of tag names: a leading underscore, digits, capitals (any identifier that is
+    # not an attribute of the class itself is a tag name like any other)
+    names = (NAMES if rng.random() < 0.75 else NAMES_OTHER)[:ntags]
     n = rng.randint(3, 12) if rng.random() < 0.6 else rng.randint(12, 40)
     budget = S.Budget(8 if base == "lattice" else 4.0)
     ops = []
